@@ -64,7 +64,7 @@ CHECKS = {
    technique="fault-injecting property-based testing against a reference model (Hypothesis) + libFuzzer with sanitizers"),
  'C14': dict(category='fault_enumeration', design_ref='DESIGN.md §4 C14',
    text="Snapshot-point enumeration: every run is serialized at every stable point; each snapshot (up to 8 per run) is deserialized into a fresh interpreter which is driven with the remaining events; continuation trace, final data and final serialized state must equal the original's; a snapshot fed to a mutated document must be rejected; pending delayed events must survive (template stream with 150-300 ms delays).",
-   note="Trusted: worker observation. Stable notices not compared. Cancel-by-sendid after resume and active invocations are not covered.",
+   note="Trusted: worker observation. Stable notices not compared. Active invocations are not covered.",
    technique="snapshot/resume differential property-based testing (Hypothesis), both engines"),
  'C19': dict(category='exploration', design_ref='DESIGN.md §4 C19',
    text="Soundness: freely generated and then structurally damaged documents that validate() accepts (no FATAL) are run under both engines (no crash, no init failure, legal configuration after every step judged on the document's own tree) and transpiled by all three back-ends (no crash). Completeness: charts valid by construction with real lua/promela expressions must get no FATAL and no syntax-error warning. validate() itself must not crash on any of these documents.",
